@@ -9,9 +9,9 @@ transition table, the initial and the final states are `AV.DFA.validate`, `AV.NF
 of Model/DFA.lean, Model/NFA.lean; the complete `validate()` of the code — reserved names
 first — is `DFA.validateDef`, `NFA.validateDef` below.)
 
-Reserved names.  Since fixes b159ae7 / 07f4843 / cb4efab the library refuses the two values
-it uses as markers itself: Python's `None` as a state name of a DFA / NFA (the "no state"
-marker of a DFA run and of `_minify`), the empty string as an input symbol of a DFA / NFA
+Reserved names.  Since fixes b159ae7 / 07f4843 / cb4efab / f47420f the library refuses the two
+values it uses as markers itself: Python's `None` as a state name of a DFA / NFA or as the key of
+a row of its transition table (the "no state" marker of a DFA run and of `_minify`), the empty string as an input symbol of a DFA / NFA
 (the λ-marker) and as a stack symbol of a PDA (`PDAStack.top()` of an empty stack).  The
 abstract name types `σ`, `α`, `γ` of the model are arbitrary types, so *which* of their
 elements stands for `None` / `""` is an explicit interpretation (`Reserved`, resp. a
@@ -68,10 +68,11 @@ def Reserved.absent {σ α : Type} : Reserved σ α := ⟨fun _ => false, fun _ 
 symbols `String` with `""` for the empty string. -/
 def Reserved.python {σ : Type} : Reserved (Option σ) String := ⟨Option.isNone, fun s => s == ""⟩
 
-/-- `FA._validate_reserved_names`: `None in self.states` → `InvalidStateError`, then
-`"" in self.input_symbols` → `InvalidSymbolError`. -/
-def faValidateReserved {σ α : Type} (R : Reserved σ α) (states : List σ) (syms : List α) : Res Unit :=
-  (guardE (!states.any R.isNone) (.lib .invalidStateError)).andThen <|
+/-- `FA._validate_reserved_names`: `None in self.states or None in self.transitions` (`keys` = the
+keys of the transition dict; fix f47420f) → `InvalidStateError`, then `"" in self.input_symbols`
+→ `InvalidSymbolError`. -/
+def faValidateReserved {σ α : Type} (R : Reserved σ α) (states keys : List σ) (syms : List α) : Res Unit :=
+  (guardE (!(states.any R.isNone || keys.any R.isNone)) (.lib .invalidStateError)).andThen <|
   guardE (!syms.any R.isEmptyStr) (.lib .invalidSymbolError)
 
 namespace DFA
@@ -80,7 +81,7 @@ variable {σ α : Type} [DecidableEq σ] [DecidableEq α]
 /-- `DFA.validate` of the code: `_validate_reserved_names()` first, then the checks of
 `AV.DFA.validate` (start states, rows, initial state, final states). -/
 def validateDef (R : Reserved σ α) (d : DFA σ α) : Res Unit :=
-  (faValidateReserved R d.states d.syms).andThen d.validate
+  (faValidateReserved R d.states (akeys d.trans) d.syms).andThen d.validate
 
 end DFA
 
@@ -90,7 +91,7 @@ variable {σ α : Type} [DecidableEq σ] [DecidableEq α]
 /-- `NFA.validate` of the code: `_validate_reserved_names()` first, then the checks of
 `AV.NFA.validate`. -/
 def validateDef (R : Reserved σ α) (n : NFA σ α) : Res Unit :=
-  (faValidateReserved R n.states n.syms).andThen n.validate
+  (faValidateReserved R n.states (akeys n.trans) n.syms).andThen n.validate
 
 end NFA
 
